@@ -132,6 +132,9 @@ class TocFetcher:
         logger.debug('[%d]: Start fetching...', self.port)
         # Register callback in this class for the port
         self.cf.add_port_callback(self.port, self._new_packet_cb)
+        # A fetch that is interrupted by a disconnect must not go on in the
+        # next connection of the same Crazyflie object
+        self.cf.disconnected.add_callback(self._disconnected)
 
         # Request the TOC CRC
         self.state = GET_TOC_INFO
@@ -144,9 +147,19 @@ class TocFetcher:
             pk.data = (CMD_TOC_INFO,)
             self.cf.send_packet(pk, expected_reply=(CMD_TOC_INFO,))
 
+    def _unsubscribe(self):
+        self.cf.remove_port_callback(self.port, self._new_packet_cb)
+        self.cf.disconnected.remove_callback(self._disconnected)
+
+    def _disconnected(self, link_uri):
+        """The link was closed or lost before the TOC was complete"""
+        logger.debug('[%d]: Disconnected, fetching aborted', self.port)
+        self.state = None
+        self._unsubscribe()
+
     def _toc_fetch_finished(self):
         """Callback for when the TOC fetching is finished"""
-        self.cf.remove_port_callback(self.port, self._new_packet_cb)
+        self._unsubscribe()
         logger.debug('[%d]: Done!', self.port)
         self.finished_callback()
 
